@@ -25,6 +25,7 @@ func checkC08(c *Ctx) {
 
 	c.Rule("C08/R11", "extractors keep no state between results: no closure built by the extractor constructors writes memory it captured (a remembered 'last name' aliases the reader's reused line buffer, so a later benchmark gets an earlier one's key)")
 	c.Rule("C08/R12", "the name is returned unchanged only when nothing is to be left out: every path on which the excluding .fullname extractor returns the full name as it is has established that either GOMAXPROCS is not excluded or the name carries no '-' (the -N suffix has no '/', so a test for '/' alone cannot stand in for it)")
+	c.Rule("C08/R19", "a set of fields is not kept in one machine word: no left shift in benchproc is by a loop index that the code does not bound")
 	c.Rule("C08/R18", "what a key shows depends on how it is asked: every one-slot cache in benchproc (a field holding the last computed value) is reused only when every input of the computation that is known at the test takes part in the test")
 	c.Rule("C08/R17", "two rows are one key only if every value agrees: keyNode.equalRow compares the stored values with the row's element by element (the hash alone does not decide)")
 	c.Rule("C08/R16", "a sub-name field holds what the name says: the lookup scans the parts in order and takes the text after the prefix of the first part that has it; the -N form is consulted only for /gomaxprocs, only on the last part, and only behind its dash (same rule as C05/R4)")
@@ -68,6 +69,7 @@ func checkC08(c *Ctx) {
 	c05Lookup(c, p, "C08/R16")
 	c08EqualRowCompares(c, p)
 	slotMemoRule(c, p, "C08/R18", true, "benchproc")
+	c08NoWordSizedSets(c, p)
 	closuresKeepNoState(c, p, "C08/R11", ctors, 2, "an extractor writes memory it captured (at %s): whatever it remembers of one result — the name it last saw is a view into the reader's reused line buffer — is stale or overwritten when the next result arrives, so a different benchmark can be given the previous one's key")
 }
 
